@@ -13,13 +13,11 @@ H['split-path'].required_goals = ('split', 'rejected')
 def build_jobs(tier, seed):
     J = common.Job
     jobs = []
-    n = 6 if tier == 'quick' else 8
+    n = 8 if tier == 'quick' else 10
     for mn in (1, 2, 3, 4):
         for mx in sorted({None, 0, mn - 1, mn, mn + 1, mn + 2} - {-1},
                          key=lambda v: -1 if v is None else v):
             for rwl in (False, True):
-                if tier == 'quick' and mn == 4 and mx not in (None, 4):
-                    continue
                 jobs.append(J(H['split-path'], dict(
                     n=n, minsegs=mn, maxsegs=mx, rwl=rwl), split_depth=8))
     return jobs
@@ -28,7 +26,7 @@ def build_jobs(tier, seed):
 def describe(tier):
     return {
         'path': 'every string of up to %d characters over {/, a, space, .}'
-        % (6 if tier == 'quick' else 8),
+        % (8 if tier == 'quick' else 10),
         'arguments': 'minsegs 1..4, maxsegs in {None, 0, min-1..min+2}, '
         'rest_with_last both',
         'outside': 'split_by_commas (pyparsing runs on the value itself; '
